@@ -27,6 +27,13 @@ TRUSTED_EXTRA = ["pandas / pyarrow readers and writers of the intermediate and r
 LEVEL_COLS = ["ModifiedPeptide", "Precursor", "PeptideGroup"]
 
 
+def eff_scores(c):
+    """the scores by which rows are ranked (higher = better): negated when descs is False"""
+    if c.get("descs", True):
+        return c["scores"]
+    return [[-v for v in s] for s in c["scores"]]
+
+
 def gen(ctx):
     cases = []
     rng = ctx.sub("conf")
@@ -86,6 +93,7 @@ def _run_impl(c):
             prefixes = ["coll%d" % i for i in range(len(paths))] if c["prefixes"] else [None] * len(paths)
             mokapot.assign_confidence(
                 dss, max_workers=c.get("workers", 1), scores=[np.array(s, dtype=float) for s in c["scores"]],
+                descs=[bool(c.get("descs", True))] * len(paths),
                 eval_fdr=0.5, dest_dir=out, prefixes=prefixes, decoys=c["decoys"],
                 deduplication=c["dedup"], do_rollup=c["rollup"])
         res = {"files": {}, "leftovers": []}
@@ -146,7 +154,7 @@ def _model(c):
     lines = []
     for j, f in enumerate(c["files"]):
         cs = c.get("chunks", {}).get("confidence", 1000000)
-        lines.append("c03.confidence %s %s %s %s" % (lib.z(cs), lib.b(c["dedup"]), lib.z(nl), _rows_for_model(f, c["scores"][j], c)))
+        lines.append("c03.confidence %s %s %s %s" % (lib.z(cs), lib.b(c["dedup"]), lib.z(nl), _rows_for_model(f, eff_scores(c)[j], c)))
     per_coll = []
     for line in lib.run_driver(lines):
         t = Toks(line)
@@ -195,7 +203,7 @@ def _locate(pid):
 
 def _score(c, pid):
     j, r = _locate(pid)
-    return float(c["scores"][j][r])
+    return float(eff_scores(c)[j][r])
 
 
 def _entity(c, fn, pid):
@@ -264,16 +272,16 @@ def oracle(c, i):
                 for r in t_rows + (d_rows or []):
                     _, ri = _locate(r["id"])
                     if r["peptide"] != f["data"]["Peptide"][ri] or r["proteins"] != f["data"]["Proteins"][ri] \
-                            or r["score"] != float(c["scores"][jj][ri]):
+                            or r["score"] not in (float(eff_scores(c)[jj][ri]), float(c["scores"][jj][ri])):
                         return f"row {r['id']} of {level} does not carry the peptide/proteins/score of one input PSM"
                 if any(not f["targets"][_locate(r["id"])[1]] for r in t_rows):
                     return f"decoy in targets.{level}"
                 if d_rows is not None and any(f["targets"][_locate(r["id"])[1]] for r in d_rows):
                     return f"target in decoys.{level}"
                 for rows in (t_rows, d_rows or []):
-                    sc = [r["score"] for r in rows]
+                    sc = [eff_scores(c)[jj][_locate(r["id"])[1]] for r in rows]
                     if any(a < b for a, b in zip(sc, sc[1:])):
-                        return f"{level}: rows are not in non-increasing score order"
+                        return f"{level}: rows are not ranked best first" + ("" if c.get("descs", True) else " (lower is better: low values must come first)")
                 if d_rows is None:
                     continue          # cannot reconstruct the retained set without the decoy file
                 ids = [_locate(r["id"])[1] for r in t_rows + d_rows]
@@ -294,15 +302,15 @@ def oracle(c, i):
                     g = groups.get(_entity(c, key_fn, "f%d_psm%d" % (jj, ri)))
                     if g is None or ri not in g:
                         return f"{level}: row f{jj}_psm{ri} is not among the retained PSMs"
-                    if c["scores"][jj][ri] != max(c["scores"][jj][x] for x in g):
+                    if eff_scores(c)[jj][ri] != max(eff_scores(c)[jj][x] for x in g):
                         return f"{level}: row f{jj}_psm{ri} is not a highest-scoring PSM of its entity"
                 if level == "psms":
                     retained = retained or {}
                     retained[jj] = ids
                 # q-values = C01 formula on exactly these rows
                 from .c01 import exact_ints
-                allr = sorted(t_rows + d_rows, key=lambda r: -r["score"])
-                spec = q_spec(exact_ints([r["score"] for r in allr]), [f["targets"][_locate(r["id"])[1]] for r in allr], True)
+                allr = sorted(t_rows + d_rows, key=lambda r: -eff_scores(c)[jj][_locate(r["id"])[1]])
+                spec = q_spec(exact_ints([eff_scores(c)[jj][_locate(r["id"])[1]] for r in allr]), [f["targets"][_locate(r["id"])[1]] for r in allr], True)
                 for r, q in zip(allr, spec):
                     if Fraction(float(q)) != r["q"]:
                         return f"{level}: q-value of {r['id']} is {float(r['q'])}, C01 formula on the retained rows gives {float(q)}"
